@@ -43,6 +43,10 @@ CHECKS = {
             "Lean 4 theorems about the spawn loop, the release pass and reaping (induction over the loop / hit list), plus an identity invariant preserved by every adjustment + differential correspondence through run() under trio MockClock with the hatchery's iteration order passed to the model + independent oracle",
             "grow covers the request and is minimal (without the last spawned child it is not covered), releases keep the request covered and no releasable child is kept, released children have demand 0, children without demand are reaped, children are only created by the factory, never both active and released, only freshly spawned children ever become active, aggregates: Lean theorems for arbitrary child sets and factories; tied to factory.py by op histories (random + exhaustive small depth).",
             "Trusted: Lean kernel + standard axioms; model (sampling correspondence); set iteration order is an input taken from the implementation; factory children with positive demand; exact arithmetic; trio MockClock."),
+    "C16": ("§6 C16",
+            "Lean 4 structural induction over decorator stacks (any depth/order of PoolDecorator, Logger, Standardiser, Buffer) + a model of %-template validation + differential correspondence with capturing log handlers + independent oracle",
+            "Supply/utilisation/allocation equal the base pool's through every stack and are untouched by demand reads/writes; plain/Logger stacks pass demand reads and writes through; every Logger emits exactly one record per write, before the write, with the value and the target's pre-write state; templates naming an unknown field are rejected at construction: Lean theorems; tied to _proxy.py, logger.py, standardiser.py, buffer.py by op sequences on generated stacks and by generated templates (known field names regenerated from _LOGGER_TEST_FIELDS on every run).",
+            "Trusted: Lean kernel + standard axioms; model (sampling correspondence); logging module (one record per log call); CPython % formatting (modelled subset, compared)."),
 }
 
 PENDING_REASON = "check not built yet in this session (planned: Lean model + proof + correspondence, see DESIGN.md work order); not claimed until its check exists"
